@@ -227,6 +227,12 @@ pub fn finish(ctx: &Ctx, mut cov: Coverage, recheck: &dyn Fn(&Value) -> Vec<Stri
         // so a defect whose manifestation depends on their iteration order may need several replays; it is
         // reported (marked order-dependent) if it reproduces at all, and is a machinery error only if it
         // never does.
+        let recheck = |case: &Value| -> Vec<String> {
+            match guarded(|| recheck(case)) {
+                Ok(v) => v,
+                Err((loc, _)) => vec![format!("panic:{loc}")],
+            }
+        };
         let r1 = recheck(&v.case);
         let r2 = recheck(&v.case);
         let mut order_dependent = false;
